@@ -72,12 +72,16 @@ pub fn run(v: &Value) -> Value {
         let mut db = Some(open(v, &path).await);
         for step in v["steps"].as_array().unwrap() {
             if let Some(sql) = step["sql"].as_str() {
-                let fut = db.as_ref().unwrap().run(sql);
+                let Some(dbr) = db.as_ref() else {
+                    outs.push(json!({"err": "database is closed"}));
+                    continue;
+                };
+                let fut = dbr.run(sql);
                 let r = std::panic::AssertUnwindSafe(fut);
                 let r = futures::FutureExt::catch_unwind(r).await;
                 outs.push(match r {
                     Ok(Ok(chunks)) => json!({"ok": chunks_to_json(&chunks)}),
-                    Ok(Err(e)) => json!({"err": e.to_string()}),
+                    Ok(Err(e)) => json!({"err": errstr(e)}),
                     Err(p) => json!({"panic": panic_msg(p)}),
                 });
             } else if step["reopen"].as_bool() == Some(true) {
@@ -95,6 +99,48 @@ pub fn run(v: &Value) -> Value {
                         break;
                     }
                 }
+            } else if step["shutdown"].as_bool() == Some(true) {
+                if let Some(d) = db.take() {
+                    let r = d.shutdown().await;
+                    outs.push(json!({"shutdown": r.is_ok()}));
+                }
+            } else if step["open"].as_bool() == Some(true) {
+                let fut = std::panic::AssertUnwindSafe(open(v, &path));
+                match futures::FutureExt::catch_unwind(fut).await {
+                    Ok(d) => {
+                        db = Some(d);
+                        outs.push(json!({"opened": true}));
+                    }
+                    Err(p) => {
+                        outs.push(json!({"panic": panic_msg(p), "at": "open"}));
+                        break;
+                    }
+                }
+            } else if let Some(f) = step.get("flip") {
+                // flip one bit of a file of the database directory
+                let file = path.join(f["path"].as_str().unwrap());
+                let mut data = std::fs::read(&file).unwrap();
+                let k = f["bit"].as_u64().unwrap() as usize % (data.len() * 8).max(1);
+                data[k / 8] ^= 1 << (k % 8);
+                std::fs::write(&file, &data).unwrap();
+                outs.push(json!({"flipped": k, "len": data.len()}));
+            } else if let Some(f) = step.get("overwrite") {
+                let file = path.join(f["path"].as_str().unwrap());
+                let mut data = std::fs::read(&file).unwrap();
+                let p = f["pos"].as_u64().unwrap() as usize;
+                for (i, b) in f["vals"].as_array().unwrap().iter().enumerate() {
+                    if p + i < data.len() {
+                        data[p + i] = b.as_u64().unwrap() as u8;
+                    }
+                }
+                std::fs::write(&file, &data).unwrap();
+                outs.push(json!({"overwritten": p, "len": data.len()}));
+            } else if let Some(f) = step.get("truncate") {
+                let file = path.join(f["path"].as_str().unwrap());
+                let data = std::fs::read(&file).unwrap();
+                let n = (f["len"].as_u64().unwrap() as usize).min(data.len());
+                std::fs::write(&file, &data[..n]).unwrap();
+                outs.push(json!({"truncated": n, "was": data.len()}));
             } else if let Some(ms) = step["sleep_ms"].as_u64() {
                 tokio::time::sleep(std::time::Duration::from_millis(ms)).await;
                 outs.push(json!({"slept": ms}));
